@@ -63,6 +63,16 @@ def battery(case, rec):
         rec(f'{name}.words', lambda wx=wx: wx.words())
         rec(f'{name}.senses', lambda wx=wx: wx.senses())
         rec(f'{name}.synsets', lambda wx=wx: wx.synsets())
+    # the unrestricted wordnet (every lexicon, relations borrowed between all of them); the
+    # second pass visits the synsets in the opposite order: what was asked before must not matter
+    dsyn = wd.synsets()
+    if case.get('_pass'):
+        dsyn = list(reversed(dsyn))
+    for y in dsyn:
+        k = f'{y.lexicon().specifier()}/{y.id}'
+        rec(f'd.relations|{k}', y.relations)
+        rec(f'd.hypernyms|{k}', y.hypernyms)
+        rec(f'd.paths|{k}', y.hypernym_paths)
     syn = w.synsets()
     for y in syn:
         k = f'{y.lexicon().specifier()}/{y.id}'
@@ -195,7 +205,9 @@ def handle(job):
                         v = ['exc', exc_name(e)]
                     events.append([key, v[0] + ':' + v[1]])
                 # twice within the process, the second time after all other read-only calls
+                case['_pass'] = 0
                 battery(case, rec)
+                case['_pass'] = 1
                 battery(case, rec)
         except JobTimeout:
             out.append({'id': case['id'], 'timeout': True})
